@@ -345,7 +345,7 @@ TWIN_HOLDERS = ["Jane Doe", "Example Corp", "Jörg Müller <j@example.org>", "FS
 
 def spellings(rng, k, bare):
     """k different lines that state ONE notice: another tag in front (SPDX-FileCopyrightText / Copyright / the sign, with and without
-    (C)), the holder in another case, a comma after the year; with `bare` (REUSE.toml values are taken as they are) also the notice
+    (C)), the holder in another case, a comma after the year, a year range, several blanks or a tab inside; with `bare` (REUSE.toml values are taken as they are) also the notice
     without any tag and with two blanks inside.  By construction every tagged line is what the extraction keeps of a header line
     holding it: a recognised tag, one blank, the year, the holder, nothing behind."""
     year, holder = str(rng.randint(1990, 2025)), rng.choice(TWIN_HOLDERS)
@@ -360,7 +360,13 @@ def spellings(rng, k, bare):
     # the plain pair first: same year, same holder, tag / no tag (or two tags)
     base = year + " " + holder
     first = [base] if bare and rng.random() < 0.6 else [rng.choice(COP_TAGS[7:]) + base]
-    return uniq(first + ["SPDX-FileCopyrightText: " + base] * (rng.random() < 0.7) + forms)[:k]
+    out = uniq(first + ["SPDX-FileCopyrightText: " + base] * (rng.random() < 0.7) + forms)[:k]
+    if rng.random() < 0.35:
+        # the blanks inside a notice are part of it: two blanks / a tab where another spelling has one
+        j = rng.randrange(1, len(out))
+        head, _, tail = out[j].rpartition(" ")
+        out[j] = head + rng.choice(["  ", "   ", " \t", "\t"]) + tail
+    return uniq(out)
 
 
 def add_twin_notices(rng, files):
